@@ -115,7 +115,7 @@ def build(read):
         f, "new_loc_err", "source: Error", "Result<()>",
         "r == Err::<(), Error>(Error::AtLoc{source: Box::new(source), line: lhs_loc.0, col: lhs_loc.1})", "bind_list")
     b.edits.append("annotation: closure `new_loc_err` given parameter type, named result and its literal postcondition")
-    f = extract.annotate_fn(f, spec=SPEC, attrs="#[verifier::loop_isolation(false)]", loops={1: LOOP})
+    f = extract.annotate_fn(f, spec=SPEC, attrs="#[verifier::exec_allows_no_decreases_clause]\n#[verifier::loop_isolation(false)]", loops={1: LOOP})
     b.edits.append("D3: std HashSet<String> replaced by an assumed mathematical-set contract")
 
     b.text = assemble([
